@@ -9,6 +9,11 @@ class ScenarioDead(Exception):
     """raised by Bench.call once a public call blew its step budget: the scenario cannot continue"""
 
 
+# benches whose scenario died in this process: (operation that overran its budget, bench).  A check usually abandons such a
+# scenario with `except ScenarioDead: continue`; the monitor log of the bench would be lost with it.
+DEAD_BENCHES = []
+
+
 class Bench:
     def __init__(self, rng, host="192.168.1.236", port=44818):
         self.rng = rng
@@ -58,6 +63,7 @@ class Bench:
             # the call did not finish within its logical step budget: the driver is unusable from here on
             self.calls.append((self.step, "budget", op))
             self.dead = True
+            DEAD_BENCHES.append((op, self))   # run_check.py hands over what the wire monitors saw before the scenario died
             return ("budget", e)
         except Exception as e:  # noqa
             self.calls.append((self.step, "exc", op, type(e).__name__))
